@@ -1,6 +1,7 @@
 import Poulpy.Lemmas.NoiseAlg
 import Poulpy.Model.NoiseBounds
 import Poulpy.Props.C13Kernel
+import Poulpy.Lemmas.CmuxMachine
 /-
 C15 (with C13) — NOISE through the BDD evaluation, the word operations and re-preparation.
 
@@ -128,6 +129,112 @@ theorem add_pipeline_invariant (m : PrepMachine R S C G) (b : BitVec 32) (gb : N
     obtain ⟨_, h2⟩ := add_reprepare_fixpoint m x b gx gb hx hb hfix hnum
     exact ih (x + b) _ h2
 
+/-! ### the CMux / external-product contracts as THEOREMS, and the BDD evaluation on the executed CMux
+
+`Lemmas/EpCoeff.lean`: `epErr_list` reads the symbolic error of C04 (`epErr = Σ_i(Σ_r digit·E − dropped − β^S·head)`) through `EpGGSW.toKey` as the
+class of C03's explicit list `Ks.errL` (`‖errL‖_∞ ≤ Σ‖digit‖₁·‖EL‖_∞`, `Hal.normInf_errL_le_of_bounds`) minus a multiple of `β^S` (for `dsize ≤ 2`
+nothing is dropped; key errors `E i r = ι(EL i r) + β^S·K i r`, the form `C01.key_hypothesis_ep` produces); `cmux_coeff` / `ep_coeff` read
+`C04.cmux_selects_with_noise` / `C04.ep_decrypts_any_radix` at every coefficient (`KsDec.ring_to_coeff`) with the explicit bounds
+`cmuxErrBound` / `epErrBound`.  `Lemmas/CmuxMachine.lean` instantiates `Noise.BddMachine` on the executed `Core.cmux`
+(`machine`: phases = coefficient vectors of values, error measure = largest centred residue modulo `2^(b·rs+b·S)`, `Lemmas/ModSize.lean`),
+so `bdd_eval_noise` holds with NO contract hypothesis. -/
+
+/-- **CmuxCoeffContract is a theorem** (`EpCoeff.cmux_coeff`, restated on the machine): the executed CMux on a good prepared bit and two
+well-formed ciphertexts returns a well-formed ciphertext within `Par.errBound` of the selected operand —
+`errBound = 2^(b·rs)·(rank+1)·dnum·(Σ_{di<dsize} 2^(b·di))·N·2·(2^b−1)·BE + (1+Σ‖s_i‖₁)·normTol(b·rs, b·S)`, an explicit function of
+`(N, base2k, dnum, dsize, rank, limb counts, secret weight, key error BE)`. -/
+theorem cmux_contract (p : CmuxMachine.Par) (hp : p.ok) (x : CmuxMachine.GBit p.N) (t f : List Col)
+    (hx : CmuxMachine.Good p x) (ht : CmuxMachine.WfC p t) (hf : CmuxMachine.WfC p f) :
+    CmuxMachine.WfC p (CmuxMachine.cmuxC p x t f) ∧
+    (modSize p.modulus p.N).ν (CmuxMachine.ph p (CmuxMachine.cmuxC p x t f) -
+      (bitR x.bit * (CmuxMachine.ph p t - CmuxMachine.ph p f) + CmuxMachine.ph p f)) ≤ p.errBound :=
+  CmuxMachine.cmuxC_spec p hp x t f hx ht hf
+
+/-- **`bdd_eval_noise`, executed, no contract**: any table, any depth; inputs good prepared bits (key well-formedness only — from
+`C01.ggsw_encrypt_sk_wellformed` / `blind_rotation_key_encrypt_sk_wellformed` by `CmuxMachine.good_of_wellformed`). -/
+theorem bdd_eval_noise_executed (p : CmuxMachine.Par) (hp : p.ok) (one zero : List Col)
+    (h1 : CmuxMachine.WfC p one) (h0 : CmuxMachine.WfC p zero)
+    (nIn w : Nat) (nodes : List Node) (inpB : Nat → Bool) (inpG : Nat → CmuxMachine.GBit p.N)
+    (hin : ∀ b, b < nIn → CmuxMachine.Good p (inpG b) ∧ (inpG b).bit = inpB b) (v : Bool) (h : evalFlat nIn w nodes inpB = some v) :
+    ∃ c, (CmuxMachine.machine p hp one zero h1 h0).evalFlatC nIn w nodes inpG = some c ∧
+      ∀ k, k < p.N → ∃ e q : ℤ,
+        2 ^ (p.b * p.S) * Core.valCoeff p.b (Core.Ops.phase p.sk (Ks.mkCt p.b p.N c)) k
+          = 2 ^ (p.b * p.S) * Core.valCoeff p.b (Core.Ops.phase p.sk (Ks.mkCt p.b p.N (if v then one else zero))) k
+            + e + 2 ^ (p.b * p.rs + p.b * p.S) * q ∧
+        |e| ≤ (chunks w nodes).length * p.errBound :=
+  CmuxMachine.bdd_eval_noise_executed p hp one zero h1 h0 nIn w nodes inpB inpG hin v h
+
+/-- **the bit ciphertexts of the word operations, executed, no contract** (the part of `word_op_correct` before packing): for `add` (depth 64; the
+other ten operations: the same statement with their table, `C13Kernel.*_correct` and `depth_*`), bit `i` of the result is a ciphertext whose value at
+every coefficient is that of the trivial encryption of `(a + b)_i` up to `64·errBound`. -/
+theorem add_bits_noise_executed (p : CmuxMachine.Par) (hp : p.ok) (one zero : List Col)
+    (h1 : CmuxMachine.WfC p one) (h0 : CmuxMachine.WfC p zero) (a b : BitVec 32) (g : Nat → CmuxMachine.GBit p.N)
+    (hin : ∀ k, k < 64 → CmuxMachine.Good p (g k) ∧ (g k).bit = inp2 a b k) (i : Nat) (hi : i < 32) :
+    ∃ c, (CmuxMachine.machine p hp one zero h1 h0).evalFlatC 64 (Add.width i) (Add.flat i) g = some c ∧
+      ∀ k, k < p.N → ∃ e q : ℤ,
+        2 ^ (p.b * p.S) * Core.valCoeff p.b (Core.Ops.phase p.sk (Ks.mkCt p.b p.N c)) k
+          = 2 ^ (p.b * p.S) * Core.valCoeff p.b (Core.Ops.phase p.sk (Ks.mkCt p.b p.N (if (a + b).getLsbD i then one else zero))) k
+            + e + 2 ^ (p.b * p.rs + p.b * p.S) * q ∧
+        |e| ≤ 64 * p.errBound := by
+  obtain ⟨c, hc, hb⟩ := CmuxMachine.bdd_eval_noise_executed p hp one zero h1 h0 64 (Add.width i) (Add.flat i) (inp2 a b) g hin _
+    (C13Kernel.add_correct i hi a b)
+  refine ⟨c, hc, fun k hk => ?_⟩
+  obtain ⟨e, q, he, hbd⟩ := hb k hk
+  refine ⟨e, q, he, le_trans hbd ?_⟩
+  exact mul_le_mul_of_nonneg_right (by exact_mod_cast depth_add i hi) (p.errBound_nonneg hp.2.2.2.2.2.2.2.2.2.2.2.1)
+
+/-- **EpCoeffContract is a theorem** (`EpCoeff.ep_coeff`): `glwe_external_product` — the product `execute_standard` of the blind rotation performs per
+key bit — at every coefficient, with the explicit bound `EpCoeff.epErrBound`; the block-binary loops use the internal product, whose error is read the
+same way (`EpCoeff.epErr_list` on `C04.ep_executed_identity`). -/
+theorem ep_contract {N : Nat} (big128 : Bool) (rb rs ab : Nat) (a : List Col) (g : Core.EpGGSW) (sk : List Poly) (bit : Bool)
+    (Hin Da Dm BE : Int)
+    (hg : (g.n == N && g.wf && Core.shapeOk N (g.rank + 1) (a.getD 0 []).length a) = true)
+    (hrb1 : 1 ≤ rb) (hrb : rb ≤ 62) (hab1 : 1 ≤ ab) (hab : ab ≤ 62) (hgb1 : 1 ≤ g.base2k) (hgb : g.base2k ≤ 62)
+    (hH0 : 0 ≤ Hin) (hH : Hin + 8 ≤ 2 ^ 62) (hb : ∀ c ∈ a, ∀ l ∈ c, ∀ x ∈ l, |x| ≤ Hin)
+    (hDa : if ab = g.base2k then Hin ≤ Da else 2 ^ g.base2k - 1 ≤ Da) (hDm : 0 ≤ Dm)
+    (hadm : Core.prodAdmissible (KsDec.bitsOf big128) g.dsize (g.rank + 1) g.dnum N Da Dm 0)
+    (hgd : ∀ row ∈ g.cells, ∀ c ∈ row, ∀ l ∈ c, ∀ x ∈ l, |x| ≤ Dm)
+    (σ : ℕ → Ks.R N) (EL : ℕ → ℕ → Poly) (K : ℕ → ℕ → Ks.R N) (hEL : ∀ i r, (EL i r).length = N)
+    (hBE : ∀ i r, Hal.normInf (EL i r) ≤ BE)
+    (hd : 1 ≤ g.dsize) (hd2 : g.dsize ≤ 2) (hN : 0 < N) (hn : g.n = N)
+    (hM : ∀ j q, (g.toPMat.entry j q).length = N) (hS : g.dnum * g.dsize ≤ g.size)
+    (hkey : ∀ i, i < g.rank + 1 → ∀ r, r < g.dnum →
+      Gadget.val ((2 : Ks.R N) ^ g.base2k) g.size (Ks.keyPhase N sk g.toPMat i r)
+        = (((if bit then 1 else 0 : Int) : Int) : Ks.R N) * σ i * ((2 : Ks.R N) ^ g.base2k) ^ (g.size - (r + 1) * g.dsize)
+          + (Ks.ι N (EL i r) + ((2 : Ks.R N) ^ g.base2k) ^ g.size * K i r))
+    (hcov1 : Core.epConvSize (a.getD 0 []).length ab g.base2k ≤ g.size)
+    (hcov2 : Core.epConvSize (a.getD 0 []).length ab g.base2k ≤ g.dnum * g.dsize)
+    (hsk : g.rank ≤ sk.length) (hσ0 : σ 0 = 1) (hσ : ∀ i, i < g.rank → σ (i + 1) = Ks.ι N (sk.getD i [])) :
+    ∃ res, Core.glweExternalProduct big128 N rb rs a ab g = .ok res ∧
+      ∀ k, k < N → ∃ e q : Int,
+        2 ^ (ab * (a.getD 0 []).length + g.base2k * g.size) * Core.valCoeff rb (Core.Ops.phase sk (Ks.mkCt rb N res)) k
+          = 2 ^ (rb * rs + g.base2k * g.size) * (if bit then 1 else 0) * Core.valCoeff ab (Core.Ops.phase sk (Ks.mkCt ab N a)) k
+            + e + 2 ^ (ab * (a.getD 0 []).length + rb * rs + g.base2k * g.size) * q ∧
+        |e| ≤ EpCoeff.epErrBound N rb rs ab (a.getD 0 []).length g sk Da BE := by
+  obtain ⟨res, h1, _, _, h4⟩ := EpCoeff.ep_coeff big128 rb rs ab a g sk bit Hin Da Dm BE hg hrb1 hrb hab1 hab hgb1 hgb hH0 hH hb hDa hDm hadm hgd
+    σ EL K hEL hBE hd hd2 hN hn hM hS hkey hcov1 hcov2 hsk hσ0 hσ
+  exact ⟨res, h1, h4⟩
+
+/-! ### the numeric conditions with the PROVED bound (`NoiseB.cmuxProved`), on the crate's test parameters
+
+`TestContext`: `N = 256`, rank 2, GGSW of 2 rows, radix `2^13`, 39 bits (`S = 3` limbs), GLWEs of 26 bits (`rs = 2`), `dsize = 1`, ternary secret
+(`‖s_i‖₁ ≤ 256`).  Units `2^-65`; `Δ = 2^-2`; the key error `BE` in units of `2^-39`: the measured key error of the circuit-bootstrapped GGSWs is
+`≤ 2^-28.2`, i.e. `BE ≤ 1800`. -/
+
+/-- **`word_ops_depth64_worst_case_exceeds`**: with the proved worst-case bound the condition `2·L·Bc < Δ` of `word_op_correct` does NOT hold for the
+depth-64 operations (`add`, `sub`, `slt`, `sltu`) at the measured key error (`BE = 1800` units of `2^-39`, i.e. `2^-28.2`), nor at `2^-33`
+(`BE = 64`); it holds from `BE ≤ 32`, i.e. a key error `≤ 2^-34`. -/
+theorem word_ops_depth64_worst_case_exceeds :
+    NoiseB.wordOkProved 256 2 2 1 13 2 3 256 1800 64 = false ∧ NoiseB.wordOkProved 256 2 2 1 13 2 3 256 64 64 = false ∧
+    NoiseB.wordOkProved 256 2 2 1 13 2 3 256 32 64 = true := by decide
+
+/-- … next to the ones that hold or fail at smaller depth: depth 1 (`identity`) holds at the measured key error; depth 2 (`and`, `or`, `xor`)
+needs `BE ≤ 1024` (`2^-29`: fails at the measured `1800`, by less than one bit); depth 6 (shifters) needs `BE ≤ 256` (`2^-31`). -/
+theorem word_ops_worst_case_by_depth :
+    NoiseB.wordOkProved 256 2 2 1 13 2 3 256 1800 1 = true ∧
+    NoiseB.wordOkProved 256 2 2 1 13 2 3 256 1800 2 = false ∧ NoiseB.wordOkProved 256 2 2 1 13 2 3 256 1024 2 = true ∧
+    NoiseB.wordOkProved 256 2 2 1 13 2 3 256 1800 6 = false ∧ NoiseB.wordOkProved 256 2 2 1 13 2 3 256 256 6 = true := by decide
+
 /-! ### circuit bootstrapping with noise -/
 
 /-- **`cbt_gives_ggsw` with noise** (composition at phase level).  Row `i` of the bootstrapped GGSW is the trace (`T`: a projection that does not
@@ -162,14 +269,11 @@ theorem cbt_gives_ggsw_noise {M : Mono R S} {Cb Gb : Type} (m : BrMachine R S M 
 /-- the GGSW the BDD layer evaluates on: `N = 256`, rank 2, 2 rows of radix `2^13`, on GLWEs of 26 bits (`TestContext`) -/
 def testGgsw : NoiseB.Par := { n := 256, rank := 2, dnum := 2, b := 13, k := 26, hw := 256 }
 
-/-- With the key error measured on the circuit-bootstrapped GGSWs (`≤ 6·10^10` units `≈ 2^-28.2`: evidence field `noise_chain`) the WORST-CASE
-condition of `word_op_correct` holds for the shallow operations (`and`, `or`, `xor`, `identity`: depth ≤ 2, pack error up to `2^57`) and for
-the shifters (depth 6, pack error up to `2^54`), and does NOT hold for the depth-64 operations (`add`, `sub`, `slt`, `sltu`), even with a
-zero pack error: the worst-case product `‖digit‖₁·‖E‖_∞` is `2^22.6·E` per CMux, `2^28.6·E` over 64 levels, against `Δ/2 = 2^-3`.
-It holds for depth 64 as soon as the key error is below `2^30` units (`2^-34`), i.e. with 6 more bits of GGSW precision.  (The
-measured output error of `add` is `2^-11`: the bound is a worst case, the test parameters rely on the average case.) -/
+/-- the same conditions through the closed formulas the driver evaluates (`NoiseB.cmuxBound`, units of `2^-64`; digit bounds as proved): at the measured
+key error (`≤ 6·10^10` units `≈ 2^-28.2`) depth 1 passes, depth 2 and depth 64 do not; depth 64 passes from a key error of `2^30` units (`2^-34`) with a
+pack error up to `2^57`. -/
 theorem word_conditions_test_params :
-    NoiseB.wordOk testGgsw 2 (6 * 10 ^ 10) (2 ^ 57) = true ∧ NoiseB.wordOk testGgsw 6 (6 * 10 ^ 10) (2 ^ 54) = true ∧
+    NoiseB.wordOk testGgsw 1 (6 * 10 ^ 10) 0 = true ∧ NoiseB.wordOk testGgsw 2 (6 * 10 ^ 10) 0 = false ∧
     NoiseB.wordOk testGgsw 64 (6 * 10 ^ 10) 0 = false ∧ NoiseB.wordOk testGgsw 64 (2 ^ 30) (2 ^ 57) = true := by decide
 
 /-- the bootstrapping key of `TestContext` (4 rows of radix `2^12`, 52 bits) and its tensor key (radix `2^10`) -/
@@ -177,15 +281,15 @@ def testBrk : NoiseB.Par := { n := 256, rank := 2, dnum := 4, b := 12, k := 52, 
 def testTsk : NoiseB.Par := { n := 256, rank := 2, dnum := 4, b := 10, k := 52, hw := 256 }
 
 /-- The closed loop under WORST-CASE bounds on the crate's test parameters: the key error of a circuit-bootstrapped GGSW is bounded by
-`NoiseB.cbtErr = hw·(blind + trace) + expand ≈ 2^54.2` units (`2^-9.8`; fresh key errors `20·2^-52`, `n_lwe = 77` in 11 blocks, 8 trace levels) —
+`NoiseB.cbtErr = hw·(blind + trace) + expand ≈ 2^55.2` units (`2^-8.8`; fresh key errors `20·2^-52`, `n_lwe = 77` in 11 blocks, 8 trace levels) —
 the factor `hw = ‖s‖₁ ≤ 256` of the row expansion times the `2·n_lwe·‖digit‖₁` of the blind rotation — while the measured key error is `2^-28.6`
 and stays there across rounds (evidence `noise_rounds`).  With that worst-case `E_cbt` the condition of `reprepare_noise_fixpoint` fails already at
-depth 2; it needs `E_cbt ≤ 2^30` units for depth 64 (`word_conditions_test_params`).  So on these parameters the fixed point is PROVED as an
+depth 1; it needs `E_cbt ≤ 2^30` units for depth 64 (`word_conditions_test_params`).  So on these parameters the fixed point is PROVED as an
 implication (`add_reprepare_fixpoint`) and its numeric premise is OBSERVED, not derived: the test parameters rely on the average case. -/
 theorem fixpoint_condition_test_params :
-    NoiseB.cbtErr testBrk 77 11 (20 * 2 ^ 12) (8 * (NoiseB.cmuxBound { testBrk with b := 11 } (20 * 2 ^ 12))) testTsk (20 * 2 ^ 12) < 2 ^ 55 ∧
-    2 ^ 54 < NoiseB.cbtErr testBrk 77 11 (20 * 2 ^ 12) (8 * (NoiseB.cmuxBound { testBrk with b := 11 } (20 * 2 ^ 12))) testTsk (20 * 2 ^ 12) ∧
-    NoiseB.wordOk testGgsw 2 (2 ^ 54) 0 = false := by decide
+    NoiseB.cbtErr testBrk 77 11 (20 * 2 ^ 12) (8 * (NoiseB.cmuxBound { testBrk with b := 11 } (20 * 2 ^ 12))) testTsk (20 * 2 ^ 12) < 2 ^ 56 ∧
+    2 ^ 55 < NoiseB.cbtErr testBrk 77 11 (20 * 2 ^ 12) (8 * (NoiseB.cmuxBound { testBrk with b := 11 } (20 * 2 ^ 12))) testTsk (20 * 2 ^ 12) ∧
+    NoiseB.wordOk testGgsw 1 (2 ^ 55) 0 = false := by decide
 
 /-! ### non-vacuity -/
 
@@ -200,8 +304,12 @@ def toyPrep : PrepMachine ℤ toySize (Nat → ℤ) (Bool × ℤ) where
   good := fun g => |g.2| ≤ 1
   Bc := 1
   hBc := by decide
+  wfC := fun _ => True
+  one_wf := trivial
+  zero_wf := trivial
   cmux_spec := by
-    intro g t f hg
+    intro g t f hg _ _
+    refine ⟨trivial, ?_⟩
     show |(if (0:Nat) = 0 then bitR g.1 * (t 0 - f 0) + f 0 + g.2 else 0) - (bitR g.1 * (t 0 - f 0) + f 0)| ≤ 1
     simpa using hg
   enc := fun b => if b then 16 else 0
